@@ -169,7 +169,7 @@ func H_C19_damaged() {
 
 // Copy returns a deeply equal Map
 func H_C19_copy() {
-	s := vJSpec{depth: 2, width: 2, innerMap: 1, innerList: 2, scalars: "sb", strAlpha: "a<\"", attrs: false}
+	s := vJSpec{depth: vP("depth", 2, 3), width: vP("width", 2, 2), innerMap: vP("map", 1, 2), innerList: vP("list", 2, 2), scalars: "sb", strAlpha: "a<\"", attrs: false}
 	n := vChoose(s.width + 1)
 	m := make(map[string]interface{}, n)
 	for i := 0; i < n; i++ {
